@@ -29,6 +29,7 @@ import (
 	"time"
 
 	"github.com/zmap/zcrypto/x509"
+	"github.com/zmap/zcrypto/x509/pkix"
 	"github.com/zmap/zcrypto/x509/revocation/ocsp"
 	"verifmc/internal/ev"
 	"verifmc/internal/fx"
@@ -175,6 +176,7 @@ func cmpFields(r *ocsp.Response, rt *refTBS, rs refSingle, produced bool) []stri
 		add("RevocationReason", int(r.RevocationReason) == rs.Reason)
 	}
 	add("IssuerHash", r.IssuerHash != 0 && r.IssuerHash == hashByOID(rs.HashOID))
+	add("Extensions", sameExts(r.Extensions, rs.Exts))
 	if rt != nil {
 		if produced {
 			add("ProducedAt", tEq(r.ProducedAt, rt.ProducedAt))
@@ -190,6 +192,32 @@ func cmpFields(r *ocsp.Response, rt *refTBS, rs refSingle, produced bool) []stri
 		}
 	}
 	return bad
+}
+
+// sameExts: the parsed Extensions are exactly the singleExtensions of the
+// SingleResponse (same order, id, critical flag and value).
+func sameExts(got []pkix.Extension, want []sExt) bool {
+	if len(got) != len(want) {
+		return false
+	}
+	for i := range want {
+		if !asn1.ObjectIdentifier(got[i].Id).Equal(want[i].ID) || got[i].Critical != want[i].Critical || !bytes.Equal(got[i].Value, want[i].Value) {
+			return false
+		}
+	}
+	return true
+}
+
+func sameSExts(got, want []sExt) bool {
+	if len(got) != len(want) {
+		return false
+	}
+	for i := range want {
+		if !got[i].ID.Equal(want[i].ID) || got[i].Critical != want[i].Critical || !bytes.Equal(got[i].Value, want[i].Value) {
+			return false
+		}
+	}
+	return true
 }
 
 // evalParse runs the real parser on one input and applies the acceptance oracle.
@@ -257,8 +285,11 @@ func (h *harness) evalParse(p pcase, w *wk) (*ocsp.Response, error) {
 			}
 			w.hist[p.kind+" accept: verifies "+how+same]++
 			if strings.Contains(b.How, "nonDER") {
-				w.hist[p.kind+" accept-note: ECDSA signature not strict DER but (r,s) verify"]++
+				// (r,s) verify but the bytes are not the DER ECDSA-Sig-Value: the
+				// response was altered after signing and still accepted
+				w.hist[p.kind+" ACCEPTED-NONDER-ECDSA-SIGNATURE"]++
 				h.noteMalleable(p, r.Signature)
+				h.c.Violation("accepted with issuer although the ECDSA signature is not the strict DER encoding of (r,s) [crypto/ecdsa.VerifyASN1 refuses it]", h.wit(p, "returned signature "+hex.EncodeToString(r.Signature)))
 			}
 		}
 	} else {
@@ -310,13 +341,16 @@ func (h *harness) runTemplate(t tmpl, w *wk) (der []byte, tbs []byte) {
 		h.c.Broken("unknown scenario %q", t.Scenario)
 	}
 	resp, want := t.build(sc)
+	dom := domainOf(t.C)
 	signer := detSigner{h.signers[sc.SignKey]}
 	var err error
 	viol := func(sig, detail string) {
 		tt := t
 		h.c.Violation(sig, witness{Kind: "template", Tmpl: &tt, Detail: detail})
 	}
+	t0 := time.Now()
 	pan, msg, site := ev.Try(func() { der, err = ocsp.CreateResponse(sc.Issuer.X, sc.Responder.X, resp, signer) })
+	t1 := time.Now()
 	w.creates++
 	if pan {
 		viol("panic@"+site+": "+ev.MsgClass(msg), msg)
@@ -324,11 +358,28 @@ func (h *harness) runTemplate(t tmpl, w *wk) (der []byte, tbs []byte) {
 	}
 	kk := keyKind(sc.SignKey)
 	if err != nil {
+		if dom != nil {
+			w.hist["create reject (out of domain: "+dom.Label+"): "+errClass(err)]++
+			return nil, nil
+		}
 		w.hist[fmt.Sprintf("create reject (%s key, sigalg %d): %s", kk, t.SigAlg, errClass(err))]++
 		if t.SigAlg == 0 && kk != "ed" {
 			viol("CreateResponse fails with the default signature algorithm ("+kk+" key): "+errClass(err), err.Error())
 		}
 		return nil, nil
+	}
+	if dom != nil {
+		if dom.MustErr {
+			w.hist["create OK ALTHOUGH OUT OF DOMAIN: "+dom.Label]++
+			detail := hex.EncodeToString(der)
+			if r, perr := ocsp.ParseResponse(der, nil); perr == nil && r != nil {
+				detail = fmt.Sprintf("the signed output parses as Status=%d IsRevoked=%v serial=%v; %s", r.Status, r.IsRevoked, r.SerialNumber, detail)
+			}
+			viol("CreateResponse signs a response for a template outside the documented domain: "+dom.Label, detail)
+			return nil, nil
+		}
+		// otherwise everything below applies: well-formed DER, faithful round trip
+		w.hist["create ok (out of domain, round trip demanded: "+dom.Label+")"]++
 	}
 	w.hist["create ok ("+kk+" key)"]++
 
@@ -362,6 +413,13 @@ func (h *harness) runTemplate(t tmpl, w *wk) (der []byte, tbs []byte) {
 			}
 			return sameInstantToSecond(g, wnt)
 		}
+		// "The ProducedAt date is automatically set to the current date, to the
+		// nearest minute": a whole minute, within the instants read around the
+		// call (5 minutes of slack either side: machine load stretches t1-t0, which
+		// the window follows; only a clock step of minutes could matter)
+		pa := rt.ProducedAt
+		add("producedAt (current time to the minute)", pa.Second() == 0 && pa.Nanosecond() == 0 &&
+			!pa.Before(t0.Add(-5*time.Minute)) && !pa.After(t1.Add(5*time.Minute)))
 		add("certStatus", got.Status == want.Status)
 		add("serialNumber", got.Serial != nil && got.Serial.Cmp(want.Serial) == 0)
 		add("thisUpdate", tEq(got.ThisUpdate, want.ThisUpdate))
@@ -373,6 +431,7 @@ func (h *harness) runTemplate(t tmpl, w *wk) (der []byte, tbs []byte) {
 		add("hashAlgorithm", got.HashOID.Equal(want.HashOID))
 		add("issuerNameHash", bytes.Equal(got.NameHash, want.NameHash))
 		add("issuerKeyHash", bytes.Equal(got.KeyHash, want.KeyHash))
+		add("singleExtensions", sameSExts(got.Exts, want.Exts))
 		add("responderID byName", rt.ResponderTag == 1 && bytes.Equal(rt.ResponderBody, sc.RespSubject))
 		if sc.Embed != nil {
 			add("certs", len(outer.Certs) == 1 && bytes.Equal(outer.Certs[0].FullBytes, sc.Embed.DER))
@@ -490,11 +549,13 @@ func main() {
 		for _, k := range []string{"rsa2048", "rsa2048b", "p256", "p256b", "p384", "p384b", "ed-issuer"} {
 			h.signers[k] = fx.Signer(k)
 		}
-		c.Rule("G-field over response templates {status/reason(6) x time shape(4) x IssuerHash(5) x serial(3) x extensions(3)} with <=2 non-default fields (quick) or the full product (thorough) x 52 PKI scenarios {issuer itself | delegated+embedded | delegated by an impostor CA with the issuer's name | delegated not embedded | embedded but signed with another key} x issuer key {RSA-2048,P-256,P-384,Ed25519} x signer key x every requested SignatureAlgorithm the API accepts; G-tlv + every single-byte substitution {00,ff,b^01,b^80} + every truncation of each produced DER of the fault subset; component splices between responses; harness-built 2-3 status bodies for ParseResponseForCert; requests hash x serial x issuer. A case is non-trivial when the parser reached the signature checks (accepted, or rejected by a signature/critical-extension/hash check)")
+		c.Rule("G-field over response templates {status/reason(6) x time shape(4) x IssuerHash(5) x serial(3) x extensions(4: none, one non-critical, one critical, two non-critical)} with <=2 non-default fields (quick) or the full product (thorough) x 52 PKI scenarios {issuer itself | delegated+embedded | delegated by an impostor CA with the issuer's name | delegated not embedded | embedded but signed with another key} x issuer key {RSA-2048,P-256,P-384,Ed25519} x signer key x every requested SignatureAlgorithm the API accepts; G-tlv + every single-byte substitution {00,ff,b^01,b^80} + every truncation of each produced DER of the fault subset; component splices between responses; harness-built 1-3 status bodies for ParseResponseForCert x singleExtensions {none | a distinct non-critical one per single | additionally an unknown critical one on single #0, #1 or #2}: the answer (fields AND Extensions) must come from the first matching single, a critical extension rejects exactly when it sits on that single; singleExtensions in the produced DER and Response.Extensions after parsing equal the template's ExtraExtensions (order, id, critical, value); producedAt in the DER of CreateResponse is a whole minute between the instants read around the call (+-5 min); templates outside the documented domain {Status 3 / -1, IssuerHash MD5 / SHA-224, nil serial: an error is demanded | Revoked with zero RevokedAt, negative serial, zero serial: an error or a well-formed faithful round trip} x every authorised RSA/ECDSA-signed scenario; an accepted response whose ECDSA signature bytes crypto/ecdsa.VerifyASN1 refuses is a violation even if (r,s) verify; requests hash x serial x issuer. A case is non-trivial when the parser reached the signature checks (accepted, or rejected by a signature/critical-extension/hash check)")
 		c.Assume("the Go standard library (crypto/rsa, crypto/ecdsa, crypto/ed25519, encoding/asn1, crypto/x509.ParsePKIXPublicKey) decides signature validity and decodes DER for the oracle",
 			"a signature counts as valid if it verifies under ANY of MD5/SHA-1/SHA-2 with PKCS#1 v1.5, PSS, ECDSA or Ed25519: the property only forbids accepting what does not verify",
-			"ProducedAt is time.Now() inside CreateResponse and ECDSA certificate signatures minted by fx.Mint are randomised by Go: byte counts of individual outcome classes may differ by a few units between runs, verdicts do not depend on them",
-			"ParseResponse with issuer==nil skips the issuer binding by design: only field equality is asserted there")
+			"ProducedAt is time.Now() inside CreateResponse (documented: the current date to the minute): the check reads the clock immediately before and after the call and allows 5 minutes either side, so only a clock step of several minutes during the run could disturb it; ECDSA certificate signatures minted by fx.Mint are randomised by Go: byte counts of individual outcome classes may differ by a few units between runs, verdicts do not depend on them",
+			"ParseResponse with issuer==nil skips the issuer binding by design: only field equality is asserted there",
+			"a valid response signed directly with an Ed25519 issuer key may be refused (CreateResponse cannot produce it, the statement only says 'accepts only if'); every other authorised scenario, including delegation by an Ed25519 issuer, must be accepted",
+			"an unknown critical singleExtension on the answering SingleResponse must be refused (RFC 6960 4.4 / RFC 5280 4.2 semantics of 'critical'), on another SingleResponse it must not matter")
 
 		if c.Replay != nil {
 			h.replay()
@@ -552,6 +613,19 @@ func main() {
 				}
 			}
 		}
+		// templates outside the documented domain: every alternative alone on the
+		// default content, every authorised scenario whose signer CreateResponse supports
+		nDom := 0
+		for _, sc := range p.scenarios {
+			if !sc.Positive || keyKind(sc.SignKey) == "ed" {
+				continue
+			}
+			for _, d := range domainAlts {
+				tmpls = append(tmpls, tmpl{Scenario: sc.ID, C: d.C})
+				nDom++
+			}
+		}
+		c.Set("templates_outside_documented_domain", nDom)
 		c.Set("templates", len(tmpls))
 		c.Set("scenarios", len(p.scenarios))
 		W := c.Workers()
@@ -818,9 +892,19 @@ func mustMarshal(v any, params string) []byte {
 	return b
 }
 
+var (
+	oidMultiExt  = asn1.ObjectIdentifier{1, 3, 6, 1, 4, 1, 99999, 13, 10}
+	oidMultiCrit = asn1.ObjectIdentifier{1, 3, 6, 1, 4, 1, 99999, 13, 11}
+)
+
+// multiExtModes: 0 = no singleExtensions; 1 = single #i carries a non-critical
+// extension whose value names i; 2+k = as 1 and single #k also carries an
+// unknown CRITICAL extension.
+const multiExtModes = 5
+
 // buildMulti assembles a signed response with one SingleResponse per serial.
 // Single #i: status by i%3 (good, revoked reason 1, unknown), thisUpdate T0+i h.
-func buildMulti(sc *scenario, serials []*big.Int, byKey bool) (der []byte, singles []refSingle) {
+func buildMulti(sc *scenario, serials []*big.Int, byKey bool, extMode int) (der []byte, singles []refSingle) {
 	var rd sRespData
 	if byKey {
 		kh := digestOf(crypto.SHA1, []byte("responder key"))
@@ -848,10 +932,16 @@ func buildMulti(sc *scenario, serials []*big.Int, byKey bool) (der []byte, singl
 			rs.NextUpdate = time.Time{}
 			st = asn1.RawValue{FullBytes: mustMarshal(sRevoked{Time: rs.RevokedAt, Reason: 1}, "tag:1")}
 		}
+		if extMode >= 1 {
+			rs.Exts = append(rs.Exts, sExt{ID: oidMultiExt, Value: []byte{0x04, 0x01, byte(i)}})
+		}
+		if extMode >= 2 && extMode-2 == i {
+			rs.Exts = append(rs.Exts, sExt{ID: oidMultiCrit, Critical: true, Value: []byte{0x01, 0x01, 0xff}})
+		}
 		rd.Responses = append(rd.Responses, sSingle{
 			CertID:     sCertID{Hash: sAlgID{Algorithm: rs.HashOID, Parameters: asn1.RawValue{Tag: 5}}, NameHash: rs.NameHash, KeyHash: rs.KeyHash, Serial: s},
 			Status:     st,
-			ThisUpdate: rs.ThisUpdate, NextUpdate: rs.NextUpdate})
+			ThisUpdate: rs.ThisUpdate, NextUpdate: rs.NextUpdate, Exts: rs.Exts})
 		singles = append(singles, rs)
 	}
 	tbs := mustMarshal(rd, "")
@@ -897,15 +987,42 @@ func (h *harness) multi(w *wk) {
 			scs = append(scs, sc)
 		}
 	}
-	n := int64(0)
-	var faultSeeds []pcase
+	// unit = (scenario, serial pattern); each unit is crossed with the responder
+	// id form, the extension mode and every query
+	type unit struct {
+		sc *scenario
+		pi int
+	}
+	var units []unit
 	for _, sc := range scs {
-		for pi, pt := range patterns {
-			for _, byKey := range []bool{false, true} {
-				if byKey && pi%7 != 0 {
-					continue // the responderID form is independent of the serial matching: a fixed seventh of the patterns
+		for pi := range patterns {
+			units = append(units, unit{sc, pi})
+		}
+	}
+	W0 := c.Workers()
+	uwk := make([]*wk, W0)
+	for i := range uwk {
+		uwk[i] = newWk()
+	}
+	unitSeeds := make([][]pcase, len(units))
+	unitN := make([]int64, len(units))
+	doneU := c.Parallel(len(units), func(wi, ui int) {
+		w := uwk[wi]
+		sc, pi := units[ui].sc, units[ui].pi
+		pt := patterns[pi]
+		for _, byKey := range []bool{false, true} {
+			if byKey && pi%7 != 0 {
+				continue // the responderID form is independent of the serial matching: a fixed seventh of the patterns
+			}
+			for extMode := 0; extMode < multiExtModes; extMode++ {
+				critAt := -1
+				if extMode >= 2 {
+					critAt = extMode - 2
+					if critAt >= len(pt) {
+						continue
+					}
 				}
-				der, singles := buildMulti(sc, pt, byKey)
+				der, singles := buildMulti(sc, pt, byKey, extMode)
 				outer, oerr := decodeOuter(der)
 				if oerr != nil {
 					c.Broken("harness-built body not decodable: %v", oerr)
@@ -915,10 +1032,10 @@ func (h *harness) multi(w *wk) {
 					q := q
 					pc := pcase{input: der, serial: q, issuer: sc.Issuer.X, ref: sc.IssRef, kind: "multi[" + sc.Kind + "]", baseTBS: tbsDER,
 						fault: func() string {
-							return fmt.Sprintf("harness-built body, scenario %s, serials %v, responder byKey=%v, query %v", sc.ID, pt, byKey, q)
+							return fmt.Sprintf("harness-built body, scenario %s, serials %v, responder byKey=%v, extension mode %d (0 none, 1 per-single non-critical, 2+k also a critical one on single #k), query %v", sc.ID, pt, byKey, extMode, q)
 						}}
 					r, err := h.evalParse(pc, w)
-					n++
+					unitN[ui]++
 					want := -1
 					if q == nil {
 						if len(pt) == 1 {
@@ -939,11 +1056,21 @@ func (h *harness) multi(w *wk) {
 					case err != nil && strings.HasPrefix(err.Error(), "panic"):
 					case want == -1 && err == nil:
 						c.Violation("ParseResponseForCert: response returned although no SingleResponse has the requested serial", h.wit(pc, ""))
+					case want >= 0 && want == critAt:
+						// the single that answers the query carries an unknown critical extension
+						if err == nil {
+							c.Violation("response accepted although the SingleResponse it is answered from carries an unknown critical extension", h.wit(pc, fmt.Sprintf("single #%d of %d", want, len(pt))))
+						} else {
+							w.hist["multi: critical extension on the answering single -> error"]++
+						}
 					case want >= 0 && err != nil:
 						if sc.MustAcc && !edDirect {
 							what := "ParseResponseForCert: valid body with a matching serial rejected: "
 							if q == nil {
 								what = "ParseResponse: valid single-status body rejected: "
+							}
+							if critAt >= 0 {
+								what += "[unknown critical extension on ANOTHER single] "
 							}
 							c.Violation(what+errClass(err), h.wit(pc, err.Error()))
 						}
@@ -952,15 +1079,30 @@ func (h *harness) multi(w *wk) {
 							c.Violation("ParseResponseForCert: field "+bad[0]+" is not that of the FIRST SingleResponse with the serial", h.wit(pc, fmt.Sprintf("expected single #%d; differing fields %v", want, bad)))
 						}
 						w.hist[fmt.Sprintf("multi: returned the first match (position %d of %d)", want, len(pt))]++
+						if critAt >= 0 {
+							w.hist["multi: critical extension on another single -> answered from the matching one"]++
+						}
 					case want == -1 && err != nil:
 						w.hist["multi: no matching serial -> error"]++
 					}
-					if len(pt) == 3 && pi%13 == 0 && q != nil && q.Cmp(A) == 0 && !byKey {
-						faultSeeds = append(faultSeeds, pc)
+					if extMode == 0 && len(pt) == 3 && pi%13 == 0 && q != nil && q.Cmp(A) == 0 && !byKey {
+						unitSeeds[ui] = append(unitSeeds[ui], pc)
 					}
 				}
 			}
 		}
+	})
+	if !doneU {
+		c.Incomplete("budget hit during the multi-status bodies")
+	}
+	n := int64(0)
+	var faultSeeds []pcase
+	for ui := range units {
+		n += unitN[ui]
+		faultSeeds = append(faultSeeds, unitSeeds[ui]...)
+	}
+	for _, k := range uwk {
+		h.merge(k)
 	}
 	c.Set("multi_status_cases", n)
 	// byte-level faults on a fixed subset of the multi-status bodies, through ParseResponseForCert
@@ -1152,7 +1294,7 @@ func (h *harness) runRequest(rc reqCase, w *wk, faults bool) {
 func (h *harness) requests(w *wk) {
 	n := 0
 	for _, ik := range []string{"rsa2048", "p256", "ed-issuer"} {
-		for s := range serialAlts {
+		for s := 0; s < contentDims[3]; s++ {
 			for o := range reqOpts {
 				if h.c.TimeUp() {
 					h.c.Incomplete("budget hit during request cases")
